@@ -68,7 +68,7 @@ static void make_fixture() {
   FX.file1 = ref::encrypt(FX.plain1, KEY, 3, 2, fo::cstr_seed("f1"), 1, S);
 }
 static void make_files() { // per-process files for the command-line operations
-  TMP = "/dev/shm/wencry-c15-" + std::to_string(getpid());
+  TMP = std::string(access("/dev/shm", W_OK) == 0 ? "/dev/shm" : "/tmp") + "/wencry-c15-" + std::to_string(getpid());
   mkdir(TMP.c_str(), 0700);
   FX.pA = TMP + "/a.bin"; FX.pAenc = TMP + "/a.enc"; FX.pOut = TMP + "/out.wenc"; FX.pDec = TMP + "/out.dec";
   spit(FX.pA, FX.plainA);
